@@ -44,6 +44,7 @@ type Pool struct {
 	Static  bool
 	After   *int64
 	Policy  string
+	TGP     *int64 // Spec.Template.Spec.TerminationGracePeriod (independent of the NodeClaims' own TGP)
 }
 
 type Claim struct {
@@ -182,7 +183,7 @@ func (p Pool) G() string {
 	if !p.ItsErr {
 		its = "(Some " + kit.GListOf(p.Its, gs) + ")"
 	}
-	return fmt.Sprintf("(mkPool %s %s %s %s %s %s)", gs(p.Name), kit.GBool(p.Managed), its, kit.GBool(p.Static), gOptZ(p.After), gs(p.Policy))
+	return fmt.Sprintf("(mkPool %s %s %s %s %s %s %s)", gs(p.Name), kit.GBool(p.Managed), its, kit.GBool(p.Static), gOptZ(p.After), gs(p.Policy), gOptZ(p.TGP))
 }
 
 func (n SNode) G() string {
